@@ -647,9 +647,9 @@ impl Prop for C03 {
         let (max_len, max_ops) = tier.pick((64usize, 12usize), (1024, 40));
         let small = content_strategy(48, 8, 6, true);
         let big = content_strategy(max_len, 40, 20, true);
-        let (l_len, l_cells, l_labels) = tier.pick((24_000, 1_200, 500), (200_000, 20_000, 3_000));
+        let (l_len, l_cells, l_labels) = tier.pick((24_000, 1_200, 500), (100_000, 10_000, 2_000));
         let large = content_strategy(l_len, l_cells, l_labels, true);
-        (prop_oneof![60 * tier.pick(1u32, 8) => small, 20 * tier.pick(1u32, 8) => big, 1 => large], any::<u64>(), proptest::collection::vec(op_strategy(), 1..=max_ops))
+        (prop_oneof![60 * tier.pick(1u32, 16) => small, 20 * tier.pick(1u32, 16) => big, 1 => large], any::<u64>(), proptest::collection::vec(op_strategy(), 1..=max_ops))
             .prop_map(|(init, order_seed, ops)| Case { init, order_seed, ops })
             .boxed()
     }
